@@ -22,10 +22,14 @@ type seqCfg struct {
 	NNames   int
 	Expiring [2]bool
 	Depth    int
+	Light    bool // full checks only after the last operation of each sequence
 }
 
 func (c seqCfg) String() string {
 	s := fmt.Sprintf("names=%d depth=%d ttl=", c.NNames, c.Depth)
+	if c.Light {
+		s = fmt.Sprintf("names=%d depth=%d(final-step checks) ttl=", c.NNames, c.Depth)
+	}
 	for n := 0; n < c.NNames; n++ {
 		if c.Expiring[n] {
 			s += "-1h"
@@ -90,13 +94,27 @@ type witness struct {
 
 type heldResult struct {
 	s        []net.IP
-	want     []string // nil: the slice was scribbled and must still be all poison
+	saved    []net.IP // element headers as returned; nil: the slice was scribbled and must still be all poison
 	name     int
 	stepMade int
 }
 
+func (h heldResult) changed() bool {
+	if h.saved == nil {
+		return !stillPoison(h.s)
+	}
+	for j := range h.saved {
+		a, b := h.s[j], h.saved[j]
+		if len(a) != len(b) || (len(a) > 0 && &a[0] != &b[0]) {
+			return true
+		}
+	}
+	return false
+}
+
 type seqWorker struct {
 	evals, seqs, steps int64
+	reports            int64
 	trans              map[uint32]struct{}
 	viols              map[string]*witness
 	held               []heldResult
@@ -116,6 +134,7 @@ func (w *seqWorker) report(cfg seqCfg, alpha []op, seq []int, upto int, key, wha
 		w.viols[key] = v
 	}
 	v.Count++
+	w.reports++
 	if upto+1 < v.Len || (upto+1 == v.Len && order < v.Order) {
 		v.Len, v.Order, v.What = upto+1, order, what
 		v.Case = map[string]any{"workload": "W1", "config": cfg.String(), "names": tableNames[:cfg.NNames],
@@ -123,22 +142,47 @@ func (w *seqWorker) report(cfg seqCfg, alpha []op, seq []int, upto int, key, wha
 	}
 }
 
-// runSeq executes one sequence with every check after every step. It stops at the
-// first disagreement (model and table have diverged; anything later would cascade).
+func cfgBitsOf(cfg seqCfg) uint32 {
+	b := uint32(0)
+	if cfg.Expiring[0] {
+		b |= 1
+	}
+	if cfg.Expiring[1] {
+		b |= 2
+	}
+	if cfg.NNames == 1 {
+		b |= 4
+	}
+	return b
+}
+
+// runSeq executes one sequence from a fresh table. In full mode every check runs after
+// every step; in light mode (used one level beyond the deepest full exploration, whose
+// runs have already judged every proper prefix completely) the return value and the
+// held results are judged at every step and the rest only after the last step. It
+// stops at the first disagreement (model and table have diverged; anything later
+// would cascade).
 func (w *seqWorker) runSeq(cfg seqCfg, alpha []op, seq []int) {
 	t := nbtns.NewNetBIOSNameServer(true)
 	var st [2]rec
 	w.held = w.held[:0]
 	w.seqs++
-	cfgBits := uint32(0)
-	if cfg.Expiring[0] {
-		cfgBits |= 1
-	}
-	if cfg.Expiring[1] {
-		cfgBits |= 2
-	}
-	if cfg.NNames == 1 {
-		cfgBits |= 4
+	cfgBits := cfgBitsOf(cfg)
+	// In light mode the steps before the last were judged on return values only, so a
+	// disagreement may be the late echo of an earlier one: re-run the prefix with every
+	// check after every step and let that run name the earliest disagreement.
+	fail := func(i int, key, what string) {
+		if cfg.Light {
+			n := w.reports
+			full := cfg
+			full.Light, full.Depth = false, i+1
+			w.seqs--
+			w.runSeq(full, alpha, seq[:i+1])
+			if w.reports > n {
+				return
+			}
+		}
+		w.report(cfg, alpha, seq, i, key, what)
 	}
 	for i, oi := range seq {
 		o := alpha[oi]
@@ -154,73 +198,65 @@ func (w *seqWorker) runSeq(cfg seqCfg, alpha []op, seq []int) {
 		} else {
 			st[o.Name], want, nd = step(st[o.Name], o, cfg.Expiring[o.Name])
 		}
-		tgt := o.Name
-		if tgt < 0 {
-			tgt = 0
+		// key material is only built when something is wrong
+		sitOf := func(n int) string { return situation(before[n], o, cfg.Expiring[n]) }
+		base := func() string {
+			if o.Kind == opClean {
+				return "W1:" + kindName[o.Kind]
+			}
+			return "W1:" + kindName[o.Kind] + ":" + sitOf(o.Name)
 		}
-		sit := situation(before[tgt], o, cfg.Expiring[tgt])
-		base := "W1:" + kindName[o.Kind] + ":" + sit
 
 		// 1. the operation itself
 		a := apply(t, o, o.Name >= 0 && cfg.Expiring[o.Name], formFor(o, i))
 		w.evals++
 		if a.Panic != "" {
-			w.report(cfg, alpha, seq, i, base+":panic:"+a.Class, fmt.Sprintf("%s panicked: %s at %s", o, a.Panic, a.Frame))
+			fail(i, base()+":panic:"+a.Class, fmt.Sprintf("%s panicked: %s at %s", o, a.Panic, a.Frame))
 			return
 		}
 		if !agrees(want, a.Out, nd) {
-			w.report(cfg, alpha, seq, i, base+":return", fmt.Sprintf("%s on %s name returned %s (%s), model says %s",
-				o, sit, describeOutcome(a.Out, o.Kind == opQuery), a.ErrS, describeOutcome(want, o.Kind == opQuery)))
+			fail(i, base()+":return", fmt.Sprintf("%s returned %s (%s), model says %s",
+				o, describeOutcome(a.Out, o.Kind == opQuery), a.ErrS, describeOutcome(want, o.Kind == opQuery)))
 			return
 		}
 		if o.Kind == opQuery && a.Raw != nil {
-			w.held = append(w.held, heldResult{s: a.Raw, want: ipStrings(a.Raw), name: o.Name, stepMade: i})
+			w.held = append(w.held, heldResult{s: a.Raw, saved: append([]net.IP{}, a.Raw...), name: o.Name, stepMade: i})
 		}
 
 		// 2. results handed out earlier must not have been changed by this table update
 		for _, h := range w.held {
-			if h.stepMade == i {
-				continue
-			}
-			changed := false
-			if h.want == nil {
-				changed = !stillPoison(h.s)
-			} else {
-				now := ipStrings(h.s)
-				for j := range now {
-					if now[j] != h.want[j] {
-						changed = true
-					}
-				}
-			}
-			if changed {
-				w.report(cfg, alpha, seq, i, base+":alias-result-changed", fmt.Sprintf("a slice returned by QueryName(n%d) at step %d was changed by the later %s: was %v, now %v",
-					h.name, h.stepMade, o, h.want, ipStrings(h.s[:cap(h.s)])))
+			if h.stepMade != i && h.changed() {
+				fail(i, base()+":alias-result-changed", fmt.Sprintf("a slice returned by QueryName(n%d) at step %d was changed by the later %s: was %v, now %v",
+					h.name, h.stepMade, o, ipStrings(h.saved), ipStrings(h.s[:cap(h.s)])))
 				return
 			}
+		}
+		if cfg.Light && i+1 < len(seq) {
+			continue
 		}
 
 		// 3. QueryName of every name, then scribble over the result and ask again
 		for n := 0; n < cfg.NNames; n++ {
 			q := op{Kind: opQuery, Name: n}
 			_, wantQ, _ := step(st[n], q, false)
-			s := situation(before[n], o, cfg.Expiring[n])
-			qbase := base
-			cls := ":post-query"
-			if o.Kind == opClean {
-				qbase = "W1:" + kindName[o.Kind] + ":" + s
-			} else if n != o.Name {
-				cls = ":post-query-other-name"
+			qkey := func() string {
+				switch {
+				case o.Kind == opClean:
+					return base() + ":" + sitOf(n) + ":post-query"
+				case n != o.Name:
+					return base() + ":post-query-other-name"
+				}
+				return base() + ":post-query"
 			}
 			a1 := apply(t, q, false, 0)
 			w.evals++
 			if a1.Panic != "" {
-				w.report(cfg, alpha, seq, i, qbase+cls+":panic:"+a1.Class, fmt.Sprintf("QueryName(n%d) after %s panicked: %s at %s", n, o, a1.Panic, a1.Frame))
+				fail(i, qkey()+":panic:"+a1.Class, fmt.Sprintf("QueryName(n%d) after %s panicked: %s at %s", n, o, a1.Panic, a1.Frame))
 				return
 			}
 			if !agrees(wantQ, a1.Out, false) {
-				w.report(cfg, alpha, seq, i, qbase+cls, fmt.Sprintf("after %s on %s name, QueryName(n%d) gives %s, model says %s",
-					o, s, n, describeOutcome(a1.Out, true), describeOutcome(wantQ, true)))
+				fail(i, qkey(), fmt.Sprintf("after %s, QueryName(n%d) gives %s, model says %s",
+					o, n, describeOutcome(a1.Out, true), describeOutcome(wantQ, true)))
 				return
 			}
 			if a1.Raw != nil {
@@ -230,12 +266,12 @@ func (w *seqWorker) runSeq(cfg seqCfg, alpha []op, seq []int) {
 			a2 := apply(t, q, false, 0)
 			w.evals++
 			if a2.Panic != "" || !agrees(wantQ, a2.Out, false) {
-				w.report(cfg, alpha, seq, i, "W1:QueryName:"+recClass(st[n])+":alias-scribble-leak", fmt.Sprintf("after %s, overwriting the slice QueryName(n%d) returned changed the table: re-query gives %s %s, model says %s",
+				fail(i, "W1:QueryName:"+recClass(st[n])+":alias-scribble-leak", fmt.Sprintf("after %s, overwriting the slice QueryName(n%d) returned changed the table: re-query gives %s %s, model says %s",
 					o, n, describeOutcome(a2.Out, true), a2.Panic, describeOutcome(wantQ, true)))
 				return
 			}
 			if a2.Raw != nil {
-				w.held = append(w.held, heldResult{s: a2.Raw, want: ipStrings(a2.Raw), name: n, stepMade: i})
+				w.held = append(w.held, heldResult{s: a2.Raw, saved: append([]net.IP{}, a2.Raw...), name: n, stepMade: i})
 			}
 		}
 
@@ -244,14 +280,11 @@ func (w *seqWorker) runSeq(cfg seqCfg, alpha []op, seq []int) {
 		p, v, stk := mon.Guard(func() { snap = t.VerifSnapshot() })
 		w.evals++
 		if p {
-			w.report(cfg, alpha, seq, i, base+":snapshot:panic:"+mon.PanicClass(v), fmt.Sprintf("VerifSnapshot after %s panicked: %v at %s", o, v, mon.TopLibFrame(stk)))
+			fail(i, base()+":snapshot:panic:"+mon.PanicClass(v), fmt.Sprintf("VerifSnapshot after %s panicked: %v at %s", o, v, mon.TopLibFrame(stk)))
 			return
 		}
-		if cls, what := judgeSnapshot(snap, st[:cfg.NNames]); cls != "" {
-			if o.Kind == opClean {
-				base = "W1:" + kindName[o.Kind]
-			}
-			w.report(cfg, alpha, seq, i, base+":post-snapshot:"+cls, fmt.Sprintf("after %s: %s", o, what))
+		if cls, what := judgeSnapshot(snap, st[:cfg.NNames], cfg.NNames); cls != "" {
+			fail(i, base()+":post-snapshot:"+cls, fmt.Sprintf("after %s: %s", o, what))
 			return
 		}
 	}
@@ -264,46 +297,52 @@ func packRec(r rec) uint32 {
 	return 1 | uint32(r.Type)<<1 | uint32(r.Status)<<2 | uint32(r.Owners&0xF)<<3
 }
 
-// judgeSnapshot checks the structural invariants of the live map (they need no model)
-// and then its agreement with the model.
-func judgeSnapshot(snap map[string]nbtns.NameRecord, st []rec) (string, string) {
-	keys := make([]string, 0, len(snap))
-	for k := range snap {
-		keys = append(keys, k)
+// recordInvariants are the structural invariants of one live record; they need no model.
+func recordInvariants(k string, r nbtns.NameRecord) (string, string) {
+	if r.Name != k {
+		return "invariant-name-field", fmt.Sprintf("record stored under %q says its name is %q", k, r.Name)
 	}
-	sort.Strings(keys)
-	for _, k := range keys {
-		r := snap[k]
-		if r.Name != k {
-			return "invariant-name-field", fmt.Sprintf("record stored under %q says its name is %q", k, r.Name)
-		}
-		if r.Type != nbtns.Unique && r.Type != nbtns.Group {
-			return "invariant-type", fmt.Sprintf("record %q has type %d", k, r.Type)
-		}
-		if len(r.Owners) == 0 {
-			return "invariant-no-owner", fmt.Sprintf("record %q is in the table with no owner", k)
-		}
-		if r.Type == nbtns.Unique && len(r.Owners) != 1 {
-			return "invariant-unique-one-owner", fmt.Sprintf("unique name %q has %d owners %v", k, len(r.Owners), ipStrings(r.Owners))
-		}
-		for i := range r.Owners {
-			for j := i + 1; j < len(r.Owners); j++ {
-				if r.Owners[i].Equal(r.Owners[j]) {
-					return "invariant-distinct-owners", fmt.Sprintf("name %q lists owner %s twice", k, r.Owners[i])
-				}
+	if r.Type != nbtns.Unique && r.Type != nbtns.Group {
+		return "invariant-type", fmt.Sprintf("record %q has type %d", k, r.Type)
+	}
+	if len(r.Owners) == 0 {
+		return "invariant-no-owner", fmt.Sprintf("record %q is in the table with no owner", k)
+	}
+	if r.Type == nbtns.Unique && len(r.Owners) != 1 {
+		return "invariant-unique-one-owner", fmt.Sprintf("unique name %q has %d owners %v", k, len(r.Owners), ipStrings(r.Owners))
+	}
+	for i := range r.Owners {
+		for j := i + 1; j < len(r.Owners); j++ {
+			if r.Owners[i].Equal(r.Owners[j]) {
+				return "invariant-distinct-owners", fmt.Sprintf("name %q lists owner %s twice", k, r.Owners[i])
 			}
 		}
 	}
+	return "", ""
+}
+
+// judgeSnapshot checks the structural invariants of the live map and, if st is not
+// nil, its agreement with the model (st[n] is the model's record of tableNames[n]).
+func judgeSnapshot(snap map[string]nbtns.NameRecord, st []rec, nNames int) (string, string) {
 	live := 0
-	for n, m := range st {
+	for n := 0; n < nNames; n++ {
 		r, ok := snap[tableNames[n]]
+		if ok {
+			live++
+			if cls, what := recordInvariants(tableNames[n], r); cls != "" {
+				return cls, what
+			}
+		}
+		if st == nil {
+			continue
+		}
+		m := st[n]
 		if ok != m.Exists {
 			return "presence", fmt.Sprintf("name n%d present in table=%v, model=%v", n, ok, m.Exists)
 		}
 		if !ok {
 			continue
 		}
-		live++
 		ty := tU
 		if r.Type == nbtns.Group {
 			ty = tG
@@ -327,7 +366,12 @@ func judgeSnapshot(snap map[string]nbtns.NameRecord, st []rec) (string, string) 
 		}
 	}
 	if live != len(snap) {
-		return "presence", fmt.Sprintf("table holds %d names %v, model %d", len(snap), keys, live)
+		keys := make([]string, 0, len(snap))
+		for k := range snap {
+			keys = append(keys, k)
+		}
+		sort.Strings(keys)
+		return "presence-foreign-name", fmt.Sprintf("table holds names %v, only %v were ever used", keys, tableNames[:nNames])
 	}
 	return "", ""
 }
